@@ -182,6 +182,25 @@ static std::string run_tissue(int ox, int cut, int ta, int tb, long* nonzero, in
 // since its caches were last refreshed (what the refiner leaves to the contact phase of the same iteration): a node on the forbidden side of such a face is pushed back.
 static std::string run_two_phases(int ta, int tb, int cut, int slots) {
     auto mk = [&](const sc::Mesh& m, short t, unsigned id) { return sc::make_cell(m, id, make_type(t, 1), true); };
+    if (slots == 3) {   // the reverse order: the model first sees the neighbour 40 sizes away, then in contact; the second phase must give what a fresh model gives on the same geometry
+        std::vector<vec3> F[2]; std::vector<long> CP[2]; char b3[400];
+        for (int hist = 0; hist < 2; hist++) { std::vector<cell_ptr> cells = {mk(sc::icosphere(1), (short)ta, 0), mk(sc::translated(sc::icosphere(1), 1.95, 0.1, -0.05), (short)tb, 1)};
+            global_simulation_parameters sp = sc::make_sim_params("unused", 0.3); sp.contact_cutoff_adhesion_ = CADH[cut]; sp.contact_cutoff_repulsion_ = CREP[cut]; Model model(sp);
+            if (hist) { std::vector<vec3> near_pos; for (node& n : cells[1]->node_lst_) { near_pos.push_back(n.pos_); if (n.is_used_) n.pos_ = n.pos_ + vec3(40, 0, 0); } prepare(cells); zero_forces(cells); model.run(cells); for (unsigned i = 0; i < cells[1]->node_lst_.size(); i++) cells[1]->node_lst_[i].pos_ = near_pos[i]; }
+            prepare(cells); zero_forces(cells); model.run(cells);
+            for (auto& c : cells) for (node& n : c->node_lst_) { F[hist].push_back(n.is_used_ ? n.force_ : vec3(0, 0, 0));
+#if CONTACT_MODEL_INDEX == 1
+                CP[hist].push_back(n.is_used_ && n.coupled_node_.has_value() ? (long)n.coupled_node_->first * 100000 + (long)n.coupled_node_->second : -1);
+#elif CONTACT_MODEL_INDEX == 2
+                long h = 0; if (n.is_used_) for (auto& kv : n.coupled_nodes_map_) h += ((long)kv.first * 100000 + (long)kv.second.first + 1) * 7919; CP[hist].push_back(h);
+#else
+                CP[hist].push_back(-1);
+#endif
+            }
+            for (auto& c : cells) c->clear_data(); }
+        double sum = 0; for (auto& f : F[0]) sum += f.norm(); bool anyc = false; for (long c : CP[0]) if (c != -1 && c != 0) anyc = true; if (sum == 0 && !anyc) return "INTERNAL the contact phase produced nothing";
+        for (size_t i = 0; i < F[0].size(); i++) if ((F[0][i] - F[1][i]).norm() > 1e-12 * (1 + F[0][i].norm()) || CP[0][i] != CP[1][i]) { snprintf(b3, sizeof b3, "contact-result-depends-on-the-history-of-the-cells: node slot %zu receives force (%.6g,%.6g,%.6g) from a model that first saw the neighbour 40 sizes away, (%.6g,%.6g,%.6g) from a fresh model%s", i, F[1][i].dx(), F[1][i].dy(), F[1][i].dz(), F[0][i].dx(), F[0][i].dy(), F[0][i].dz(), CP[0][i] != CP[1][i] ? "; couplings differ" : ""); return b3; }
+        return ""; }
     std::vector<cell_ptr> cells = {mk(sc::icosphere(1), (short)ta, 0), mk(sc::translated(sc::icosphere(1), 1.95, 0.1, -0.05), (short)tb, 1)};
     if (slots == 1) { local_mesh_refiner lmr(1e-3, 1e3, true); for (auto& c : cells) for (const edge& e0 : c->get_edge_set()) { edge e = e0; bool can = false; try { can = lmr.can_be_merged(e, c); } catch (...) {} if (!can) continue; edge_set es = c->get_edge_set(); try { lmr.merge_edge(e, c, es); } catch (...) {} break; } }
     prepare(cells); global_simulation_parameters sp = sc::make_sim_params("unused", 0.3); sp.contact_cutoff_adhesion_ = CADH[cut]; sp.contact_cutoff_repulsion_ = CREP[cut]; Model model(sp);
@@ -294,8 +313,8 @@ static void explore(Result& R) {
     for (int ox = -12; ox <= 12; ox++) for (int cu = 0; cu < 2; cu++) for (int ta = 0; ta < 5; ta++) for (int tb = 0; tb < 5; tb++) { tissues++; std::string e = run_tissue(ox, cu, ta, tb, &nonzero);
         if (!e.empty()) R.violation(clause_of(e) + "|types=" + std::to_string(ta) + ">" + std::to_string(tb), "two icospheres, offset " + std::to_string(0.25 * ox) + ", types " + std::to_string(ta) + "," + std::to_string(tb) + ": " + e, "mode=tissue\nox=" + std::to_string(ox) + "\ncut=" + std::to_string(cu) + "\nta=" + std::to_string(ta) + "\ntb=" + std::to_string(tb) + "\n"); }
     for (int t = 0; t < 5; t++) for (int cu = 0; cu < 2; cu++) for (int ids = 0; ids < N_ID_SCHEMES; ids++) { tissues++; std::string e = run_self(t, cu, ids); if (!e.empty()) R.violation(clause_of(e), "single concave cell of type " + std::to_string(t) + " with id " + std::to_string(scheme_id(ids, 0)) + " at list position 0: " + e, "mode=self\ntype=" + std::to_string(t) + "\ncut=" + std::to_string(cu) + "\nids=" + std::to_string(ids) + "\n"); }
-    { long two = 0, probes = 0; for (int ta = 0; ta < 5; ta++) for (int tb = 0; tb < 5; tb++) for (int cu = 0; cu < 2; cu++) { for (int sl = 0; sl < 3; sl++) { std::string e = run_two_phases(ta, tb, cu, sl); two++; tissues++; if (e.rfind("INTERNAL", 0) == 0) { if (ta == 0 && tb == 0) { R.internal_error = e; return; } continue; }
-            if (!e.empty()) R.violation(clause_of(e) + "|types=" + std::to_string(ta) + ">" + std::to_string(tb) + "|two-phases", "two icospheres 0.05 below contact, then 40 cell sizes apart, types " + std::to_string(ta) + "," + std::to_string(tb) + (sl == 1 ? ", node lists with a free slot" : sl == 2 ? ", the leaving cell shrinks: the curvature of its nodes rises above the coupling threshold" : "") + ": " + e, "mode=twophase\nta=" + std::to_string(ta) + "\ntb=" + std::to_string(tb) + "\ncut=" + std::to_string(cu) + "\nslots=" + std::to_string(sl) + "\n"); }
+    { long two = 0, probes = 0; for (int ta = 0; ta < 5; ta++) for (int tb = 0; tb < 5; tb++) for (int cu = 0; cu < 2; cu++) { for (int sl = 0; sl < 4; sl++) { std::string e = run_two_phases(ta, tb, cu, sl); two++; tissues++; if (e.rfind("INTERNAL", 0) == 0) { if (ta == 0 && tb == 0) { R.internal_error = e; return; } continue; }
+            if (!e.empty()) R.violation(clause_of(e) + "|types=" + std::to_string(ta) + ">" + std::to_string(tb) + "|two-phases", "two icospheres 0.05 below contact, then 40 cell sizes apart, types " + std::to_string(ta) + "," + std::to_string(tb) + (sl == 1 ? ", node lists with a free slot" : sl == 2 ? ", the leaving cell shrinks: the curvature of its nodes rises above the coupling threshold" : sl == 3 ? ", reverse order: far first, then in contact" : "") + ": " + e, "mode=twophase\nta=" + std::to_string(ta) + "\ntb=" + std::to_string(tb) + "\ncut=" + std::to_string(cu) + "\nslots=" + std::to_string(sl) + "\n"); }
           std::string e = run_recreated_faces(ta, tb, cu, &probes); tissues++; if (!e.empty() && e != "skip") R.violation(clause_of(e) + "|types=" + std::to_string(ta) + ">" + std::to_string(tb) + "|recreated-faces", "types " + std::to_string(ta) + "," + std::to_string(tb) + ": " + e, "mode=recreated\nta=" + std::to_string(ta) + "\ntb=" + std::to_string(tb) + "\ncut=" + std::to_string(cu) + "\n"); }
       R["two_phase_tissues"] = two; R["probes_of_faces_recreated_since_the_last_refresh"] = probes; if (!probes && R.violations.empty()) R.internal_error = "no re-created face was probed (vacuous)"; }
     { long turned = 0, tnz = 0; for (int ox : {-8, -7, 6, 7, 8}) for (int cu = 0; cu < 2; cu++) for (int ta = 0; ta < 5; ta++) for (int tb = 0; tb < 5; tb++) for (int which = 0; which < 2; which++) { turned++; tissues++; std::string e = run_turned(ox, cu, ta, tb, which, &tnz);
